@@ -303,7 +303,7 @@ pub fn check() -> PropertyCheck {
             Box::new(Pbt {
                 name: "fault-scripts-random",
                 quick: 200_000,
-                thorough: 2_000_000,
+                thorough: 8_000_000,
                 strat,
                 test,
                 max_shrink: 3000,
